@@ -88,6 +88,11 @@ CHECKS = {
             "ecb_instr on every (start, subject, pattern, preset) over the alphabet/length bound, ecb_string on counts 0..255, ecb_read_filter on every numeric spelling the DATA path produces, and every DATA/READ program with an empty item; both plausible behaviours of BASIC09 string slices past the end are executed and a violation must hold under both.",
             "Trusted: the two language models; INSTR with an empty pattern is UNSPEC (no verdict).",
             "DESIGN.md §2 C20"),
+    "C01": ("model_checking",
+            "bounded-exhaustive enumeration of expression sentences (all operator sequences x negations x NOT x parenthesis placements up to k operators), IF conditions, statement contexts, literal spellings and function nestings; each evaluated by a Color BASIC reference interpreter (Microsoft precedence table) and, translated, by a BASIC09 reference interpreter (BASIC09's table) on 5-6 valuations",
+            "For every sentence in the bound the value of every variable and the branch taken must be equal under both models for every valuation; this decides the property by value/branch equality (re-grouping is only used to explain counterexamples).",
+            "Trusted: the two precedence tables and function semantics of the models (documented facts self-test); uncertain BASIC09 behaviour is UNSPEC -> no verdict (counted in evidence).",
+            "DESIGN.md §2 C01, Appendix A"),
 }
 
 PENDING_REASON = "check not built yet in this revision (work in progress; will be claimed when its explorer exists)"
